@@ -46,6 +46,34 @@ def history_obligations(R, W, scen, nhist, length, seed):
     t0 = time.time()
     bad = []
     nreq = 0
+    # quantities built on the tetrad: the real Gram-Schmidt takes square roots, whose sign in F_p need not be the one the
+    # textbook spec picked -- for them "equals fresh" is checked literally, against the same key on a fresh instance
+    import inspect
+    import re
+    import aurel.core as C
+    reads = {}
+    for k in list(C.descriptions) + [n for n in vars(C.AurelCore) if callable(getattr(C.AurelCore, n)) and not n.startswith('__')]:
+        f = getattr(C.AurelCore, k, None)
+        if f is None or not hasattr(f, '__code__'):
+            continue
+        src = inspect.getsource(f)
+        reads[k] = set(re.findall(r'self\[["\']([A-Za-z0-9_]+)["\']\]', src)) | set(re.findall(r'self\.([A-Za-z0-9_]+)\(', src))
+    tetrad_dep = {'tetrad_base', 'null_vector_base'}
+    changed = True
+    while changed:
+        changed = False
+        for k, rs in reads.items():
+            if k not in tetrad_dep and rs & tetrad_dep:
+                tetrad_dep.add(k)
+                changed = True
+    fresh_cache = {}
+
+    def reference(k):
+        if k not in tetrad_dep:
+            return U[k]
+        if k not in fresh_cache:
+            fresh_cache[k] = make_rel(env, U)[k]
+        return fresh_cache[k]
     for h in range(nhist):
         every = rng.choice([1, 2, 3])
         rel = make_rel(env, U, clear_cache_every_nbr_calc=every, memory_threshold_inGB=rng.choice([1e-9, 4]))
@@ -54,7 +82,9 @@ def history_obligations(R, W, scen, nhist, length, seed):
             try:
                 v = rel[k]
                 nreq += 1
-                if CT.compare(v, U[k]):
+                ref = reference(k)
+                ref = CT.untens_tree(ref) if k in tetrad_dep else ref
+                if CT.compare(v, ref):
                     bad.append(f'{k} after {hist[:hist.index(k)][-4:]} (every={every})')
                     break
             except (NeedResample, Undecided, SpecUnavailable):
